@@ -61,6 +61,7 @@ type Term struct {
 	Name   string // variable name
 	Hi, Lo int    // extract
 	ID     int
+	Hard   bool // contains wide multiplication/division: bit-blasting is hopeless, prefer the integer encoding
 }
 
 func (t *Term) IsConst() bool { return t.Op == OpConst }
@@ -122,6 +123,17 @@ func (b *TB) mk(t *Term) *Term {
 	k := sb.String()
 	if x, ok := b.tab[k]; ok {
 		return x
+	}
+	switch t.Op {
+	case OpMul, OpUDiv, OpURem, OpSDiv, OpSRem:
+		if t.W >= 32 {
+			t.Hard = true
+		}
+	}
+	for _, a := range t.A {
+		if a.Hard {
+			t.Hard = true
+		}
 	}
 	t.ID = b.next
 	b.next++
